@@ -686,7 +686,7 @@ func main() {
 	seed := flag.Uint64("seed", 1, "seed")
 	tier := flag.String("tier", "quick", "tier")
 	ch := flag.String("child", "", "internal: run one crash probe")
-	stage := flag.String("stage", "readers", "readers | sites | decoders")
+	stage := flag.String("stage", "readers", "readers | sites | decoders | includes")
 	from := flag.Int("from", 0, "internal: first case of a decoders child")
 	stride := flag.Int("stride", 1, "internal: distance between the cases of a decoders child")
 	inFile := flag.String("in", "", "internal: input file of a child")
@@ -701,6 +701,14 @@ func main() {
 		childDecoders(*from, *stride, *seed, *tier)
 		return
 	}
+	if *ch == "includes" {
+		childIncludes(*from, *stride, *seed, *tier)
+		return
+	}
+	if *ch == "pkginfo" {
+		childPkginfo(*inFile, *from)
+		return
+	}
 	if *ch != "" {
 		child(*ch)
 		return
@@ -711,6 +719,8 @@ func main() {
 		err = runSites(*out, *seed, *tier)
 	case "decoders":
 		err = runDecoders(*out, *seed, *tier)
+	case "includes":
+		err = runIncludes(*out, *seed, *tier)
 	default:
 		err = run(*out, *seed, *tier)
 	}
